@@ -67,6 +67,16 @@ type Env struct {
 	AtEnd   []func()
 	Tier    string
 	Replay  bool
+	// Shared holds objects the simulated caller keeps and uses again within one run (across
+	// operations and connections)
+	Shared map[string]interface{}
+}
+
+func (e *Env) share(key string, v interface{}) {
+	if e.Shared == nil {
+		e.Shared = map[string]interface{}{}
+	}
+	e.Shared[key] = v
 }
 
 // Fail records a violation.
